@@ -416,7 +416,7 @@ def run(ctx):
         ctx.log("depth", d + 1, "new states", len(nxt))
     ctx.cov.update({
         'states': stats['states'], 'transitions': stats['transitions'], 'traces_validated_against_impl': stats['transitions'],
-        'samples': [sample or [], ['broken-missing-tx', 'valid-on-head-e']],
+        'samples': [sample or []] + [list(f) for f in frontier[:2]],
         'outcome_histogram': {k: {'entered': v[0], 'not_entered': v[1]} for k, v in sorted(hist.items())},
         'event_kinds': len(hist), 'deliveries_entered': stats['entered'], 'deliveries_not_entered': stats['rejected'],
         'closing_blocks_stored': stats['closing_stored'], 'closing_blocks_not_accepted': stats['closing_not_accepted'],
